@@ -1,7 +1,86 @@
-(** C02 — pinned statements. Nothing but statements, [exact], and assumption audits. *)
-From TU Require Import Base BPE_Model C02_Model C02_Proofs.
+(** C02 — pinned statements. Nothing but statements, [exact], and assumption audits.
+    [bpe_tokenize c s] = [BPETokenizer::new(c)] + [tokenize(s, true)] ([None] = constructor error),
+    [bpe_decode tbl ids] = [de_tokenize(ids, true)] as bytes, [eff_table c] = the merge table after
+    the [max_vocab_size] cut. No well-formedness of the table is needed. *)
+From TU Require Import Base BPE_Model C02_Model C02_Inv C02_Loop C02_Proofs.
 Open Scope N_scope.
 
-Theorem strip_trailing_ws_prefix : forall s, exists t, s = strip_trailing_ws s ++ t /\ forallb is_ws t = true.
-Proof. exact strip_prefix_l. Qed.
-Print Assumptions strip_trailing_ws_prefix.
+(** Lossless: decoding the ids gives the UTF-8 bytes of the text without its trailing whitespace. *)
+Theorem bpe_lossless : forall c s, Forall valid_cp s -> config_ok c = true ->
+  exists ids, bpe_tokenize c s = Some ids /\
+    bpe_decode (eff_table c) ids = utf8s (strip_trailing_ws s) /\
+    Forall (fun id => id < vocab_size c) ids.
+Proof. exact bpe_lossless_l. Qed.
+Print Assumptions bpe_lossless.
+
+(** ... exactly the text when it does not end in whitespace *)
+Theorem bpe_lossless_exact : forall c s ids t ch, Forall valid_cp s -> bpe_tokenize c s = Some ids ->
+  s = t ++ [ch] -> is_ws ch = false -> bpe_decode (eff_table c) ids = utf8s s.
+Proof. exact bpe_exact_l. Qed.
+Print Assumptions bpe_lossless_exact.
+
+(** The decoded bytes are the UTF-8 encoding of a prefix of the text; the rest is whitespace
+    (so the concatenated token byte strings are valid UTF-8). *)
+Theorem bpe_utf8_prefix : forall c s ids, Forall valid_cp s -> bpe_tokenize c s = Some ids ->
+  exists p t, s = p ++ t /\ forallb is_ws t = true /\ bpe_decode (eff_table c) ids = utf8s p.
+Proof. exact bpe_utf8_prefix_l. Qed.
+Print Assumptions bpe_utf8_prefix.
+
+(** Every emitted id (prefix, body, suffix) is a vocabulary id. *)
+Theorem bpe_ids_valid : forall c s ids, Forall valid_cp s -> bpe_tokenize c s = Some ids ->
+  Forall (fun id => id < vocab_size c) ids.
+Proof. exact bpe_ids_valid_l. Qed.
+Print Assumptions bpe_ids_valid.
+
+(** [strip_trailing_ws s] is the unique split point: a prefix, the rest all whitespace, not ending
+    in whitespace itself; the identity on texts that do not end in whitespace. *)
+Theorem strip_trailing_ws_spec : forall s,
+  (exists t, s = strip_trailing_ws s ++ t /\ forallb is_ws t = true) /\
+  (strip_trailing_ws s = [] \/ exists t c, strip_trailing_ws s = t ++ [c] /\ is_ws c = false) /\
+  (forall t c, s = t ++ [c] -> is_ws c = false -> strip_trailing_ws s = s).
+Proof. exact strip_spec_l. Qed.
+Print Assumptions strip_trailing_ws_spec.
+
+(** The words found by the scanner form of [\s+\S+|^\S+] concatenate to the stripped text. *)
+Theorem bpe_words_concat : forall s, concat (bpe_words s) = strip_trailing_ws s.
+Proof. exact words_concat. Qed.
+Print Assumptions bpe_words_concat.
+
+(** Loop invariant at exit: the slots concatenate to the word, every live slot is a token
+    (a single byte or a table entry) and carries that token's id. *)
+Theorem merge_word_inv : forall tbl w, Forall (fun b => b < 256) w ->
+  exists bs, merge_word_st tbl w = Some (bs, map (idopt tbl) bs) /\ concat bs = w /\
+             forall k, nth k bs [] <> [] -> Tok tbl (nth k bs []).
+Proof. exact merge_word_inv_l. Qed.
+Print Assumptions merge_word_inv.
+
+(** The out-of-fuel value is never returned (fuel [3 * length w + 1]); a valid configuration never
+    fails, an invalid one (pad / prefix / suffix not a special token) is the constructor error. *)
+Theorem merge_word_fuel : forall tbl w, Forall (fun b => b < 256) w -> merge_word tbl w <> None.
+Proof. exact merge_word_fuel_l. Qed.
+Print Assumptions merge_word_fuel.
+
+Theorem bpe_tokenize_total : forall c s, Forall valid_cp s -> config_ok c = true -> bpe_tokenize c s <> None.
+Proof. exact bpe_total_l. Qed.
+Print Assumptions bpe_tokenize_total.
+
+Theorem bpe_tokenize_ctor_error : forall c s, config_ok c = false -> bpe_tokenize c s = None.
+Proof. exact bpe_tokenize_error. Qed.
+Print Assumptions bpe_tokenize_ctor_error.
+
+(** The executable statement evaluated on the implementation's outputs holds of the model's own output. *)
+Theorem check_run : forall v, Forall valid_cp (v_str (v_nth 5 v)) -> check_C02 v (run_C02 v) = true.
+Proof. exact check_run_l. Qed.
+Print Assumptions check_run.
+
+(** Non-vacuity: a concrete configuration (table { a, ab, ä}, max_vocab_size 260 cutting the third
+    entry, two special tokens, prefix <bos>) and the text " ab ä  " meet the premises. *)
+Definition ex_cfg : config :=
+  Cfg [[32;97];[32;97;98];[195;164]] (Some 260) [[60;112;62];[60;98;62]] [[60;98;62]] [].
+Example ex_ok : config_ok ex_cfg = true.
+Proof. vm_compute. reflexivity. Qed.
+Example ex_valid : Forall valid_cp [32;97;98;32;228;32;32].
+Proof. repeat constructor. Qed.
+Example ex_run : bpe_tokenize ex_cfg [32;97;98;32;228;32;32] = Some [259;257;32;195;164]
+  /\ bpe_decode (eff_table ex_cfg) [259;257;32;195;164] = [32;97;98;32;195;164].
+Proof. vm_compute. split; reflexivity. Qed.
